@@ -43,6 +43,15 @@ def _same_interval(obs, exp):
 def _run_bounds(ctx, sizes, chunk, backends):
     """_get_chunk_bounds directly, then real readers whose chunk length is `chunk` samples."""
     from phylib.io.traces import _get_chunk_bounds, get_ephys_reader
+
+    def passes(r):
+        """The chunk iterator of a reader is asked for more than once (a pass abandoned after its first interval,
+        then two full passes): every full pass yields the same tiling."""
+        it = iter(r.iter_chunks())
+        next(it, None)
+        first = [as_list(y) for y in r.iter_chunks()]
+        second = [as_list(y) for y in r.iter_chunks()]
+        return first if first == second else [['passes differ', first, second]]
     res = {}
     res['direct'] = (as_list(_get_chunk_bounds(list(sizes), chunk)), None)
     rate = chunk / 600.0
@@ -54,16 +63,16 @@ def _run_bounds(ctx, sizes, chunk, backends):
                 write_flat(p, np.zeros((s, 2), dtype=np.int16))
                 paths.append(p)
             r = get_ephys_reader(paths, sample_rate=rate, dtype=np.int16, n_channels=2)
-            res['flat'] = (as_list(r.chunk_bounds), [as_list(y) for y in r.iter_chunks()])
+            res['flat'] = (as_list(r.chunk_bounds), passes(r))
             del r
     if 'array' in backends and len(sizes) == 1:
         r = get_ephys_reader(np.zeros((sizes[0], 2), dtype=np.int16), sample_rate=rate)
-        res['array'] = (as_list(r.chunk_bounds), [as_list(y) for y in r.iter_chunks()])
+        res['array'] = (as_list(r.chunk_bounds), passes(r))
     if 'npy' in backends and len(sizes) == 1:
         with tmp_dir(ctx) as d:
             np.save(d / 'a.npy', np.zeros((sizes[0], 2), dtype=np.int16))
             r = get_ephys_reader(d / 'a.npy', sample_rate=rate)
-            res['npy'] = (as_list(r.chunk_bounds), [as_list(y) for y in r.iter_chunks()])
+            res['npy'] = (as_list(r.chunk_bounds), passes(r))
             del r
     return res
 
